@@ -107,8 +107,15 @@ def run_flow(prop, cases, budgets, kinds, tier, seed, depth=4, rule="", assumpti
         for d in drift[:3]:
             core.log("MODEL-DRIFT (BashVM.tla misrepresents the script; not a verdict): case %s query %s model %s real %s" % (
                 d["id"], d["qi"], json.dumps(d["model"])[:300], json.dumps(d["real"])[:200]))
+        # step level: the script's own variable changes (bash DEBUG trap, script unchanged) must be steps of BashStep.tla
+        import vmtrace
+        scriptof = {c["id"]: c["_script"] for c in ok}
+        for r in records:
+            r["_script"] = scriptof.get(r["id"])
+        vmstats.update(vmtrace.validate(records, 300 if tier == "quick" else 4000, rnd, extra_probes))
         for r in records:
             r.pop("vm", None)
+            r.pop("_script", None)
     res_v, mism, nval, nskip = bashflow.validate(records)
     byid = {r["id"]: r for r in records}
     v = core.Verdict(prop)
